@@ -204,7 +204,8 @@ func c11CallSites(r *Report, p *Prog, arch string, contracts map[string]*xContra
 				// substitution: callee scalar symbols -> caller expressions
 				subst := map[string]*Lin{}
 				okSub := true
-				for i, prm := range cal.Params {
+				for i, prm0 := range cal.Params {
+					prm := namedParam{prm0, asmCanonName(cal.Name(), i, prm0.Name())}
 					a := call.Call.Args[i]
 					switch prm.Type().Underlying().(type) {
 					case *types.Slice:
@@ -261,7 +262,8 @@ func c11CallSites(r *Report, p *Prog, arch string, contracts map[string]*xContra
 					}
 					r.Check(proveWithCallers(p, fn, e, facts2, 0), "CALLSITE", site+" precondition "+factStr(pre), p.InstrPos(call), "caller must establish "+e.String()+" >= 0 under its dominating guards")
 				}
-				for i, prm := range cal.Params {
+				for i, prm0 := range cal.Params {
+					prm := namedParam{prm0, asmCanonName(cal.Name(), i, prm0.Name())}
 					if _, isPtr := prm.Type().Underlying().(*types.Pointer); !isPtr {
 						continue
 					}
